@@ -113,7 +113,7 @@ func (W) Gen(prop string, seed uint64, tier string) *world.Plan {
 		var ops []world.Op
 		start := int((seed * 97) % uint64(len(c)))
 		for i := 0; i < n; i++ {
-			ops = append(ops, world.Op{K: "ptr", S: c[(start+i)%len(c)]})
+			ops = append(ops, world.Op{K: "ptr", S: c[(start+i)%len(c)], N: r.Intn(4)})
 		}
 		p.Tasks = append(p.Tasks, world.Task{Role: "patcher", Ops: ops})
 	}
@@ -140,6 +140,9 @@ func genWrites(r *rng.R, n int) []world.Op {
 			off = r.Intn(seg - ln)
 		}
 		ops = append(ops, world.Op{K: "mwrite", N: off, F: ln, V: r.U64(), B: r.Intn(3)})
+		if r.Chance(200) {
+			ops = append(ops, ops[len(ops)-1]) // the same bytes to the same place again
+		}
 	}
 	return ops
 }
@@ -515,7 +518,24 @@ func execSweep(p *world.Plan, env *world.Env, arenaRegion simenv.Region) {
 			if img.SymSize(entry) < 13 {
 				env.Probe("function_code_shorter_than_jump")
 			}
+			if op.N&1 == 1 {
+				// re-apply the identical jump (Guard.Restore): a write of bytes that are already there
+				g.Restore()
+				env.Check()
+				if msg := img.CheckPages(false); msg != "" {
+					env.FailAt(at, "pages/writable", "after Restore (identical jump rewritten) on %s: %s", op.S, msg)
+				}
+				if img.CheckJump(entry) != "" {
+					env.FailAt(at, "mem/jump-missing", "after Restore the entry of %s does not hold the jump", op.S)
+				}
+				env.Probe("identical_bytes_rewritten")
+			}
 			g.UnpatchWithLock()
+			if op.N&2 == 2 {
+				// a second unpatch writes the original bytes over themselves
+				g.UnpatchWithLock()
+				env.Probe("identical_bytes_rewritten")
+			}
 			env.Check()
 			if msg := img.Check(base); msg != "" {
 				env.FailAt(at, "image/not-restored", "after unpatching %s: %s", op.S, msg)
